@@ -17,6 +17,17 @@ CHECKS = {
              '(theorems hold for every value fillnodata could return).',
         technique='Coq proof (list-sum lemmas + field/lra over Q) + in-Coq correspondence (vm_compute, exact rationals) with KernelModel.fit',
         design='5/C01'),
+    'C05': dict(
+        text='Theorems (Coq): overlap_for_kernel k = (k+1)/2 >= half-kernel + 1; seam lemma - the fit (all sums, parameters, R2) at every '
+             'pixel of an output window computed from the block read with the overlap equals the whole-image fit, for every image, mask, '
+             'odd kernel (h != w), block position; ring-1 extension with the real overlap; input window = output window + overlap. '
+             'Tie: kernel model vs KernelModel.fit on whole images and cut blocks (in Coq), overlap_for_kernel / validate_kernel_shape '
+             'exhaustive small domain in Coq; paired real fusions 1 block vs 2..30 blocks (bit-identical on dyadic geometries, 1e-4 on '
+             'general ones, cubic-spline differences must lie within one processing pixel of a block boundary).',
+        note='partial: locality of GDAL resampling (H_down_local, H_up_local2) is exercised, not proved. Known finding D10 '
+             '(footprint-edge sliver) is reported as KNOWN-FINDING.',
+        technique='Coq proof (seam lemma from a general kernel-sum congruence) + correspondence + paired-run metamorphic oracle',
+        design='5/C05'),
     'C06': dict(
         text='Theorems (Coq, unbounded in window, block shape, overlap): processing-grid output windows partition the processing '
              'window, input = output grown by overlap, other-grid output windows tile under one monotone corner map. The '
@@ -27,6 +38,24 @@ CHECKS = {
              '(H_monotone_bnd) is checked per case, not proved. Trusted: Coq kernel + vm_compute + PrimFloat, harness.',
         technique='Coq proof (induction + lia) over a hand-written Gallina model + in-Coq correspondence (vm_compute) with the real block_pairs()',
         design='5/C06'),
+    'C07': dict(
+        text='Theorem (Coq over Q, every block, mask, odd kernel, model, in-paint setting): source x kx, reference x ky (kx, ky > 0) '
+             'leaves joint mask, R2 and the in-paint selection unchanged, multiplies gains by ky/kx, offsets by ky, and the corrected '
+             'value by ky; the only thresholds are dimensionless; block normalisation moves as (ky/kx a, ky b). Tie: kernel model vs '
+             'KernelModel.fit on base and scaled blocks (in Coq); paired real fusions with power-of-two factors compared bit for bit '
+             '(corrected, masks, gains, offsets, R2) on 3 grids, 1..9 blocks.',
+        note='partial: homogeneity of GDAL resampling, fillnodata, np.std/percentile (H_lin) is exercised exactly, not proved.',
+        technique='Coq proof (homogeneity of kernel sums, field/lra over Q) + correspondence + paired-run metamorphic oracle',
+        design='5/C07'),
+    'C08': dict(
+        text='Theorems (Coq): a masked read never returns a number stored under an invalid or outside pixel (for every window); the fit and '
+             'every kernel sum are functions of (joint mask, values at jointly valid pixels) only. Tie: read model vs from_rio_dataset on '
+             'four encodings with hidden values, kernel model vs KernelModel.fit with distinct source/reference masks (both in Coq); paired '
+             'real fusions + comparisons over NaN / numeric nodata / internal mask / alpha encodings with hidden 0, 7, 200, 255, 1e30, -5, NaN '
+             'must be bit-identical.',
+        note='partial: H_valid_only for GDAL resampling is exercised, not proved; alpha only on integer images (GDAL rule).',
+        technique='Coq proof (congruence of kernel sums on the joint mask; read_window spec) + correspondence + paired-run oracle',
+        design='5/C08'),
     'C16': dict(
         text='Theorems (Coq, rational geometry, unbounded): the covers_bounds decision is true iff the source footprint lies inside the '
              'reference footprint on all four sides (right/bottom to within the 1e-6 px float slack); containment / same grid is '
